@@ -68,7 +68,7 @@ def _run_query(script, q):
         if kind == 'refs_project':
             return _canon_names(script.get_references(line, col))
         if kind == 'complete':
-            return [[c.name, c.complete, c.type] for c in script.complete(line, col)]
+            return [[c.name, c.complete] for c in script.complete(line, col)]
         if kind == 'sigs':
             return [[s.name, s.line, s.column, s.index, list(s.bracket_start), s.to_string()]
                     for s in script.get_signatures(line, col)]
@@ -93,6 +93,10 @@ def _setup_worker():
     d = os.path.join(SCRATCH, 'cache-%d' % os.getpid())
     os.makedirs(d, exist_ok=True)
     jedi.settings.cache_directory = Path(d)
+    # path-less buffers get the default project of the working directory: an empty one
+    e = os.path.join(SCRATCH, 'empty')
+    os.makedirs(e, exist_ok=True)
+    os.chdir(e)
     return jedi
 
 
@@ -124,6 +128,27 @@ def _find_node(root, typ, start, end):
     while n is not None and not (n.type == typ and n.start_pos == start and n.end_pos == end):
         n = n.parent
     return n
+
+
+def _ensure_disk_file(path, text):
+    """the saved version of the buffer (history and ground-truth processes may race: same content,
+    same mtime, atomic replace)"""
+    if os.path.exists(path):
+        return
+    tmp = '%s.%d.tmp' % (path, os.getpid())
+    with open(tmp, 'w') as f:
+        f.write(text)
+    os.utime(tmp, (1500000000, 1500000000))
+    os.replace(tmp, path)
+
+
+class _FakeTime:
+    """stands in for the `time` module inside jedi/cache.py"""
+    def __init__(self):
+        self.now = 1700000000.0
+
+    def time(self):
+        return self.now
 
 
 class Probes:
@@ -165,6 +190,29 @@ class Probes:
                 me.trace.append(('s', parso_cache_node, None, (node, include_flows), hit, res))
             return res
 
+        from jedi.api import helpers
+        from jedi.cache import _time_caches
+        orig_sig = helpers.cache_signatures
+        self.sig_trace = None
+
+        def probe_sig(inference_state, context, bracket_leaf, code_lines, user_pos):
+            dct = _time_caches.get('call_signatures_validity', {})
+            vals_before = set(map(id, dct.values()))
+            res = orig_sig(inference_state, context, bracket_leaf, code_lines, user_pos)
+            if me.sig_trace is not None:
+                path = context.get_root_context().py__file__()
+                stored = [k for k, v in dct.items() if id(v) not in vals_before]
+                # a stored key tells whether the regex matched; a hit stores nothing
+                if stored:
+                    matched, hit = stored[-1][1] is not None, False
+                elif path is None:
+                    matched, hit = None, False
+                else:
+                    matched, hit = False, True     # only a comparable key (None component) can hit
+                me.sig_trace.append([list(bracket_leaf.start_pos), matched, hit, path is None])
+            return res
+
+        helpers.cache_signatures = probe_sig
         filters._get_definition_names = probe_defs
         filters.get_cached_parent_scope = probe_scope
         klass.get_cached_parent_scope = probe_scope
@@ -199,6 +247,12 @@ def run_history(item):
     probes = Probes.get() if item.get('probe', True) else None
     if probes:
         probes.items = []      # ordinals are per history
+    # the clock of jedi/cache.py (time caches) is a logical one the history controls
+    import jedi.cache as jcache
+    if not isinstance(jcache.time, _FakeTime):
+        jcache.time = _FakeTime()
+    clock = jcache.time
+    ticks = item.get('ticks') or [1] * len(item['texts'])
     mode = item['mode']
     path = None
     if mode != 'nopath':
@@ -206,9 +260,7 @@ def run_history(item):
         os.makedirs(d, exist_ok=True)
         path = os.path.join(d, 'buf.py')
         if mode == 'disk':
-            with open(path, 'w') as f:
-                f.write(item['texts'][0])
-            os.utime(path, (1500000000, 1500000000))
+            _ensure_disk_file(path, item['texts'][0])
     steps = []
     script = None
     for si, text in enumerate(item['texts']):
@@ -216,6 +268,8 @@ def run_history(item):
         script = None
         if probes:
             probes.trace = None
+            probes.sig_trace = None
+        clock.now += ticks[si]
         script = jedi.Script(text, path=path)
         grammar = script._inference_state.grammar
         key = script.path
@@ -234,10 +288,10 @@ def run_history(item):
         # queries
         if probes:
             probes.trace = []
-        nsig_before = len(_time_caches.get('call_signatures_validity', {}))
+            probes.sig_trace = []
         rec['answers'] = [_run_query(script, q) for q in item['queries'][si]]
-        rec['sig_entries_added'] = len(_time_caches.get('call_signatures_validity', {})) - nsig_before
         if probes:
+            rec['sigs'], probes.sig_trace = probes.sig_trace, None
             trace, probes.trace = probes.trace, None
             seen = {}
             bad_values = []
@@ -257,7 +311,7 @@ def run_history(item):
                     nd, flows = k
                     if nd.get_root_node() is not script._module_node:
                         continue
-                    mk = 's:%s@%s-%s/%d' % (nd.type, list(nd.start_pos), list(nd.end_pos), int(flows))
+                    mk = 's:%s@%s-%s' % (nd.type, list(nd.start_pos), list(nd.end_pos))
                     got = None if res is None else [res.type, list(res.start_pos)]
                     if mk not in direct_cache:
                         fn = _find_node(fresh, nd.type, nd.start_pos, nd.end_pos)
@@ -279,19 +333,19 @@ def run_history(item):
         script = None
         if probes:
             gc.collect()
-            live = []
+            cur = []
+            dead = 0
             for kobj, d in list(probes.filters._definition_name_cache.items()):
-                o = probes.ordinal(kobj)
-                if o != 'untracked':
-                    live += [[o, 'd:' + k] for k in d]
+                if kobj is it:
+                    cur += ['d:' + k for k in d]
+                elif probes.ordinal(kobj) != 'untracked':
+                    dead += 1
             if probes.scope_cache is not None:
                 for kobj, d in list(probes.scope_cache.items()):
-                    o = probes.ordinal(kobj)
-                    if o != 'untracked':
-                        live += [[o, 's:%s@%s-%s/%d' % (n.type, list(n.start_pos), list(n.end_pos), 0)]
-                                 for n in d]
-            rec['derived_live'] = sorted(set(o for o, _ in live))
-            rec['derived_n'] = len(live)
+                    if kobj is it:
+                        cur += ['s:%s@%s-%s' % (n.type, list(n.start_pos), list(n.end_pos)) for n in d]
+            rec['derived_cur'] = sorted(cur)
+            rec['dead_items_alive'] = dead
         steps.append(rec)
     return {'hid': item['hid'], 'steps': steps}
 
@@ -309,10 +363,8 @@ def truth(item):
         d = os.path.join(SCRATCH, 'h-%s' % item['hid'])
         os.makedirs(d, exist_ok=True)
         path = os.path.join(d, 'buf.py')
-        if item['mode'] == 'disk' and not os.path.exists(path):
-            with open(path, 'w') as f:
-                f.write(item['disk_text'])
-            os.utime(path, (1500000000, 1500000000))
+        if item['mode'] == 'disk':
+            _ensure_disk_file(path, item['disk_text'])
     script = jedi.Script(item['text'], path=path)
     return [_run_query(script, q) for q in item['queries']]
 
@@ -334,7 +386,7 @@ def sample_queries(rng, text, npos):
     qs = [['names', None, None], ['errors', None, None]]
     for nm in rng.sample(names, min(npos, len(names))):
         l, c = nm.start_pos
-        for kind in ('infer', 'goto', 'refs', 'context', 'help'):
+        for kind in ('infer', 'goto', 'refs', 'context'):
             qs.append([kind, l, c])
         qs.append(['complete', l, nm.end_pos[1]])
         if len(nm.value) > 1:
@@ -359,37 +411,39 @@ def gen_histories(ctx, n, rng_name='hist'):
     for i in range(n):
         r = rng.random()
         length = rng.randint(1, 5) if r < 0.5 else rng.randint(6, 12) if r < 0.85 else rng.randint(13, 30)
-        if ctx.quick and length > 14:
-            length = rng.randint(10, 14)
+        if ctx.quick and length > 10:
+            length = rng.randint(7, 10)
         hist = histories.history(rng, length)
         mode = ['nopath', 'path', 'disk'][i % 3]
         texts = [t for _, t in hist]
         npos = 2 if ctx.quick else 4
         out.append({'hid': '%s-%d-%d' % (rng_name, ctx.seed, i), 'mode': mode, 'texts': texts,
                     'kinds': [k for k, _ in hist],
+                    'ticks': [rng.choice([0, 1, 1, 1, 2, 2, 4, 10]) for _ in texts],
                     'queries': [sample_queries(rng, t, npos) for t in texts], 'probe': True})
     return out
 
 
-def fresh_interpreters(items, jobs=14, timeout=600):
-    """one brand-new interpreter per item (truth()); returns the answers in order"""
+def pmap(func, chunks, jobs=14, timeout=900):
+    """runs props.c08.<func> over every chunk (a list of items) in its own new interpreter, at most
+    `jobs` at a time; returns the list of result lists, in order"""
     import tempfile
     tmp = tempfile.mkdtemp(prefix='verif-c08-', dir='/var/tmp')
     env = dict(os.environ)
     env['PYTHONPATH'] = os.pathsep.join([common.REPO, os.path.join(common.VERIF, 'harness'), common.VERIF])
-    pending = list(enumerate(items))
+    pending = list(enumerate(chunks))
     running = []
-    results = [None] * len(items)
+    results = [None] * len(chunks)
     try:
         while pending or running:
             while pending and len(running) < jobs:
-                i, it = pending.pop(0)
+                i, chunk = pending.pop(0)
                 inp = os.path.join(tmp, 'in%d.json' % i)
                 outp = os.path.join(tmp, 'out%d.json' % i)
                 with open(inp, 'w') as f:
-                    json.dump([it], f)
+                    json.dump(chunk, f)
                 p = subprocess.Popen([sys.executable, os.path.join(common.VERIF, 'harness', 'worker.py'),
-                                      'props.c08', 'truth', inp, outp], env=env, cwd=common.VERIF,
+                                      'props.c08', func, inp, outp], env=env, cwd=common.VERIF,
                                      stdout=subprocess.DEVNULL, stderr=subprocess.PIPE, text=True)
                 running.append((i, p, outp, time.time()))
             still = []
@@ -397,13 +451,13 @@ def fresh_interpreters(items, jobs=14, timeout=600):
                 if p.poll() is None:
                     if time.time() - t0 > timeout:
                         p.kill()
-                        raise common.InfraError('fresh interpreter timed out')
+                        raise common.InfraError('worker %s timed out' % func)
                     still.append((i, p, outp, t0))
                     continue
                 if p.returncode != 0:
-                    raise common.InfraError('fresh interpreter failed: ' + (p.stderr.read() or '')[-1500:])
+                    raise common.InfraError('worker %s failed: %s' % (func, (p.stderr.read() or '')[-1500:]))
                 with open(outp) as f:
-                    results[i] = json.load(f)[0]
+                    results[i] = json.load(f)
             running = still
             if running:
                 time.sleep(0.02)
@@ -416,21 +470,35 @@ def fresh_interpreters(items, jobs=14, timeout=600):
         shutil.rmtree(tmp, ignore_errors=True)
 
 
+def chunked(items, n):
+    n = max(1, min(n, len(items)))
+    size = (len(items) + n - 1) // n
+    return [items[i:i + size] for i in range(0, len(items), size)]
+
+
+def fresh_interpreters(items, jobs=14):
+    """one brand-new interpreter per item (truth()); returns the answers in order"""
+    return [r[0] for r in pmap('truth', [[it] for it in items], jobs)]
+
+
 # ======================================================================= model replay
 
 def model_request(h, res):
     """the observed history as a request for Drivers/C08"""
     ids = {}
     steps = []
+    ticks = h.get('ticks') or [1] * len(h['texts'])
     for si, text in enumerate(h['texts']):
         tid = ids.setdefault(text, len(ids) + 1)
         key = None if h['mode'] == 'nopath' else 'buf'
+        steps.append({'t': 'tick', 'dt': ticks[si]})
         steps.append({'t': 'script', 'key': key, 'text': tid,
                       'ptime': 1500000000 if h['mode'] == 'disk' else None})
         for o, mk, hit in res['steps'][si].get('lookups', []):
             steps.append({'t': 'lookup', 'k': mk})
+        for pos, matched, hit, nopath in res['steps'][si].get('sigs', []):
+            steps.append({'t': 'sig', 'pos': pos[0] * 100000 + pos[1], 'matched': bool(matched), 'k': 'sig'})
         steps.append({'t': 'gc'})
-        steps.append({'t': 'tick', 'dt': 1})
     return {'op': 'history', 'cfg': {}, 'steps': steps}
 
 
@@ -441,6 +509,7 @@ def compare_model(ctx, h, res, ans):
     for si, text in enumerate(h['texts']):
         tid = ids.setdefault(text, len(ids) + 1)
         rec = res['steps'][si]
+        i += 1   # tick
         m = ans[i]
         i += 1
         case = {'hid': h['hid'], 'mode': h['mode'], 'step': si}
@@ -465,18 +534,24 @@ def compare_model(ctx, h, res, ans):
                 ctx.tie_broken('correspondence:cache-state',
                                short({'case': case, 'lookup': mk, 'real': [o, hit], 'model': m,
                                       'text_id': tid}, 900))
+        for pos, matched, hit, nopath in rec.get('sigs', []):
+            m = ans[i]
+            i += 1
+            ctx.count('sig-cache', (h['hid'], si, tuple(pos), matched), nontrivial=not nopath,
+                      bucket='nopath' if nopath else ('matched' if matched else 'unmatched') + ('/hit' if hit else '/miss'))
+            # a hit serves the value of the text that stored it: the model says which one
+            if hit != m.get('hit'):
+                ctx.tie_broken('correspondence:sig-cache', short({'case': case, 'bracket': pos, 'matched': matched,
+                                                                  'real_hit': hit, 'model': m}, 600))
         m = ans[i]
-        i += 2   # gc + tick
-        mlive = sorted(set(g for g, _ in m.get('derived', [])))
-        ctx.count('cache-state', (h['hid'], si, 'gc'), nontrivial=bool(mlive), bucket='after-gc')
-        if rec.get('derived_live') is not None and rec['derived_live'] != mlive:
+        i += 1   # gc
+        mcur = sorted(k for g, k in m.get('derived', []) if g == model['item'])
+        ctx.count('cache-state', (h['hid'], si, 'gc'), nontrivial=bool(mcur), bucket='after-gc')
+        if rec.get('derived_cur') is not None and rec['derived_cur'] != mcur:
             ctx.tie_broken('correspondence:cache-state',
-                           short({'case': case, 'what': 'items with derived entries after gc',
-                                  'real': rec['derived_live'], 'model': mlive}, 900))
-        if rec.get('derived_live') is not None and rec['derived_n'] != len(m.get('derived', [])):
-            ctx.tie_broken('correspondence:cache-state',
-                           short({'case': case, 'what': 'number of derived entries after gc',
-                                  'real': rec['derived_n'], 'model': len(m.get('derived', []))}, 900))
+                           short({'case': case, 'what': 'keys of the derived caches under the live item after gc',
+                                  'only_real': sorted(set(rec['derived_cur']) - set(mcur))[:5],
+                                  'only_model': sorted(set(mcur) - set(rec['derived_cur']))[:5]}, 900))
 
 
 # ======================================================================= oracle
@@ -493,18 +568,35 @@ def judge(ctx, stream, h, si, hist_answers, truth_answers, how):
     return bad
 
 
+def shape_of(h, q, a, b=None):
+    """classifies a failing (query, history answer, fresh answer) for the known-finding matcher"""
+    if q[0] == 'sigs' and h['mode'] != 'nopath':
+        entries = [x for ans in (a, b) if ans and ans[0] != 'EXC' for x in ans]
+        if entries and all(len(x) == 6 and x[4][0] < q[1] for x in entries):
+            return 'sigs-cursor-below-bracket-line'
+    return q[0]
+
+
 def confirm_and_report(ctx, stream, h, si, bad):
     """failing-input search: re-run in new processes, shrink the history by dropping steps"""
     q, a, b = bad[0]
     texts = h['texts'][:si + 1]
+    shape = shape_of(h, q, a, b)
+    if shape == 'sigs-cursor-below-bracket-line':
+        # the signature time cache keyed on (path, None, bracket position): reported unshrunk
+        ctx.fail(stream, 'get_signatures serves the signature of an earlier text',
+                 {'shape': shape, 'mode': h['mode'], 'texts': texts[-2:], 'query': q,
+                  'ticks': (h.get('ticks') or [1] * len(h['texts']))[si - 1:si + 1]},
+                 expected=b, observed=a, how='./check C08 --replay <this file>')
+        return
 
     def fails(ts):
         item = {'hid': h['hid'] + '-shrink', 'mode': h['mode'], 'texts': ts,
-                'queries': [[] for _ in ts[:-1]] + [[q]], 'probe': False}
+                'queries': [[q] for _ in ts], 'probe': False, 'ticks': [1] * len(ts)}
         t_item = {'hid': h['hid'] + '-shrink', 'mode': h['mode'], 'text': ts[-1], 'disk_text': ts[0],
                   'queries': [q]}
         _cleanup_dir(h['hid'] + '-shrink')
-        r = common.parallel_map('props.c08', 'run_history', [item], jobs=1)[0]
+        r = pmap('run_history', [[item]], 1)[0][0]
         t = fresh_interpreters([t_item])[0]
         return r['steps'][-1]['answers'][0] != t[0], r['steps'][-1]['answers'][0], t[0]
 
@@ -512,13 +604,16 @@ def confirm_and_report(ctx, stream, h, si, bad):
     if not ok:
         # only reproducible with the other queries of the history in between: report unshrunk
         ctx.fail(stream, 'answer depends on the editing history (needs the full query load to reproduce)',
-                 {'mode': h['mode'], 'texts': texts, 'query': q, 'queries': h['queries'][:si + 1]},
+                 {'shape': shape, 'mode': h['mode'], 'texts': texts, 'query': q, 'queries': h['queries'][:si + 1],
+                  'ticks': (h.get('ticks') or [1] * len(h['texts']))[:si + 1]},
                  expected=b, observed=a, how='./check C08 --replay <this file>')
         return
     # drop steps greedily (the first text is the disk text in disk mode: keep it)
     keep = list(texts)
     i = 1 if h['mode'] == 'disk' else 0
-    while i < len(keep) - 1:
+    tries = 0
+    while i < len(keep) - 1 and tries < 8:
+        tries += 1
         cand = keep[:i] + keep[i + 1:]
         ok, _, _ = fails(cand)
         if ok:
@@ -526,7 +621,8 @@ def confirm_and_report(ctx, stream, h, si, bad):
         else:
             i += 1
     ok, a2, b2 = fails(keep)
-    ctx.fail(stream, 'answer depends on the editing history', {'mode': h['mode'], 'texts': keep, 'query': q},
+    ctx.fail(stream, 'answer depends on the editing history',
+             {'shape': shape, 'mode': h['mode'], 'texts': keep, 'query': q},
              expected=b2, observed=a2, how='./check C08 --replay <this file>')
 
 
@@ -567,14 +663,11 @@ def run(ctx):
 
 
 def _run(ctx):
-    hists = load_corpus() + gen_histories(ctx, ctx.size(42, 600))
+    hists = load_corpus() + gen_histories(ctx, ctx.size(30, 600))
     by_id = {h['hid']: h for h in hists}
     jobs = 14
     # several histories per worker process, one after the other: later ones start from the caches
     # the earlier ones left behind (longer effective histories)
-    results = common.parallel_map('props.c08', 'run_history', hists, jobs=jobs)
-    # ground truth: every (history, step) text in a process that never saw the history (other
-    # processes, shuffled order, every cache emptied before each text)
     titems = []
     for h in hists:
         for si, text in enumerate(h['texts']):
@@ -583,7 +676,19 @@ def _run(ctx):
     order = list(range(len(titems)))
     ctx.subrng('truth-order').shuffle(order)
     shuffled = [titems[i] for i in order]
-    tans = common.parallel_map('props.c08', 'truth', shuffled, jobs=jobs)
+    # several histories per worker process, one after the other: later ones start from the caches
+    # the earlier ones left behind (longer effective histories).  Ground truth: every (history,
+    # step) text in a process that never saw the history (other processes, shuffled order, every
+    # cache emptied before each text).  Disk-mode files are written by whoever comes first with the
+    # same content and mtime.
+    from concurrent.futures import ThreadPoolExecutor
+    t0 = time.time()
+    with ThreadPoolExecutor(2) as ex:
+        f1 = ex.submit(pmap, 'run_history', chunked(hists, 9), 9)
+        f2 = ex.submit(pmap, 'truth', chunked(shuffled, 7), 7)
+        results = [r for c in f1.result() for r in c]
+        tans = [r for c in f2.result() for r in c]
+    common.log('[c08] histories + truth: %.1fs' % (time.time() - t0))
     truth_of = {}
     for it, a in zip(shuffled, tans):
         truth_of[tuple(it['_k'])] = a
@@ -618,12 +723,6 @@ def _run(ctx):
                 ctx.tie_broken('correspondence:cache-state',
                                short({'case': case, 'what': 'item under the Script key does not carry the current text',
                                       'lines_ok': rec.get('lines_ok'), 'node_ok': rec.get('node_ok')}))
-            ctx.count('sig-cache', (h['hid'], si), nontrivial=rec['sig_entries_added'] > 0,
-                      bucket='added=%d' % min(rec['sig_entries_added'], 3))
-            nsig = sum(1 for q in h['queries'][si] if q[0] == 'sigs')
-            if rec['sig_entries_added'] > nsig:
-                ctx.tie_broken('correspondence:sig-cache', short({'case': case, 'added': rec['sig_entries_added'],
-                                                                  'sig_queries': nsig}))
             bad = judge(ctx, 'oracle', h, si, rec['answers'], truth_of[(h['hid'], si)], None)
             if bad:
                 suspicious.append((h, si, bad))
@@ -634,10 +733,12 @@ def _run(ctx):
     rng = ctx.subrng('fresh')
     cand = [(h, si) for h, r in zip(hists, results) for si, rec in enumerate(r['steps'])
             if si > 0 and rec['premise_ok']]
-    sample = rng.sample(cand, min(len(cand), ctx.size(28, 400)))
+    sample = rng.sample(cand, min(len(cand), ctx.size(10, 400)))
     fitems = [{'hid': h['hid'], 'mode': h['mode'], 'text': h['texts'][si], 'disk_text': h['texts'][0],
                'queries': h['queries'][si]} for h, si in sample]
+    t0 = time.time()
     fans = fresh_interpreters(fitems)
+    common.log('[c08] fresh interpreters: %.1fs' % (time.time() - t0))
     res_of = {r['hid']: r for r in results}
     for (h, si), fa in zip(sample, fans):
         bad = judge(ctx, 'oracle-fresh', h, si, res_of[h['hid']]['steps'][si]['answers'], fa, None)
@@ -646,10 +747,17 @@ def _run(ctx):
         # the empty-cache worker must itself agree with the brand-new interpreter
         if truth_of[(h['hid'], si)] != fa:
             ctx.notes.append('empty-cache worker and brand-new interpreter disagree on %s step %d' % (h['hid'], si))
-    for h, si, bad in suspicious[:6]:
-        ctx.tie_broken('oracle:history-vs-fresh', short({'hid': h['hid'], 'step': si, 'query': bad[0][0],
-                                                         'history': bad[0][1], 'fresh': bad[0][2]}, 900))
+    seen_shapes = {}
+    for h, si, bad in suspicious:
+        sh = shape_of(h, bad[0][0], bad[0][1], bad[0][2])
+        seen_shapes[sh] = seen_shapes.get(sh, 0) + 1
+        if seen_shapes[sh] > (3 if sh != 'sigs-cursor-below-bracket-line' else 50):
+            continue
+        nviol = len(ctx.violations)
         confirm_and_report(ctx, 'oracle', h, si, bad)
+        if len(ctx.violations) > nviol:
+            ctx.tie_broken('oracle:history-vs-fresh', short({'hid': h['hid'], 'step': si, 'query': bad[0][0],
+                                                             'history': bad[0][1], 'fresh': bad[0][2]}, 900))
     ctx.obligations['assumptions'] = [
         'parso diff parser result == from-scratch parse (premise of the property; checked per step by a '
         'tree dump comparison, failing steps are counted in stream `premise` and not judged)',
@@ -664,14 +772,15 @@ def _run(ctx):
 def replay(ctx, payload):
     inp = payload['input']
     item = {'hid': 'replay', 'mode': inp['mode'], 'texts': inp['texts'],
-            'queries': inp.get('queries') or [[] for _ in inp['texts'][:-1]] + [[inp['query']]], 'probe': False}
+            'queries': inp.get('queries') or [[inp['query']] for _ in inp['texts']], 'probe': False,
+            'ticks': inp.get('ticks')}
     os.makedirs(SCRATCH, exist_ok=True)
     _cleanup_dir('replay')
-    r = common.parallel_map('props.c08', 'run_history', [item], jobs=1)[0]
+    r = pmap('run_history', [[item]], 1)[0][0]
     t = fresh_interpreters([{'hid': 'replay', 'mode': inp['mode'], 'text': inp['texts'][-1],
                              'disk_text': inp['texts'][0], 'queries': item['queries'][-1]}])[0]
     print('query   :', inp['query'])
-    print('history :', r['steps'][-1]['answers'])
+    print('history :', r['steps'][-1]['answers'][-len(t):])
     print('fresh   :', t)
     print('recorded: expected', payload.get('expected'), 'observed', payload.get('observed'))
-    return 1 if r['steps'][-1]['answers'] != t else 0
+    return 1 if r['steps'][-1]['answers'][-len(t):] != t else 0
